@@ -42,6 +42,19 @@ SEEDS = {
  "C18-B": ("grpc", "C18", "an earlier request carrying k=v, a fault injected on k=v, then a call that omits k: the pooled parameter map is no longer cleared"),
  "C19-A": ("actions", "C19", "endpoint answering 203 (the only wrongly treated status of 200-599): success list became the range 200..204"),
  "C19-B": ("actions", "C19", "exactly 9 fast successes (window 10) then a message failing twice in a row: the nack clamp lets the window reach 0"),
+ # ---- second wave (changes C and D), written by fresh sub-agents told only the property and what A and B were
+ "C07-C": ("filter", "C07", "an un-parenthesised OR chain of three or more operands with the first operand false: orTerms short-circuits like andTerms, so `a OR b OR c` means `a OR (b AND c)`"),
+ "C07-D": ("actions", "C07,C06", "dead-letter forward into a topic whose subscription has a FILTER, message with attributes: the forward loads the message with a partial column select, so the filter sees an empty attribute map"),
+ "C14-C": ("actions", "C14,C13", "message acked, its retention over but not yet swept, then Seek to a time before its publish: the revive half of seek-to-time lost ExpiresAtGTE(now), so the expired message is delivered again"),
+ "C14-D": ("services", "C14,C17", "TTL changed through UpdateSubscription(expiration_policy) and no pull afterwards: expires_at is computed from the OLD ttl (Get shows the new one), so the sweep expires it too early / too late"),
+ "C12-C": ("services", "C12", "CreateSubscription of an already-live name while the topic named in the request is deleted / missing: the topic lookup was moved in front of the name check, so NotFound is answered instead of AlreadyExists"),
+ "C12-D": ("services", "C12,C15", "a snapshot exists when its topic is deleted: the clean-up filters snapshots by the wrong column (id instead of topic_id), so Get/List still show it and the name is not reusable until the prune job runs"),
+ "C19-C": ("services", "C19", "an exchange that is BOTH slow (>= 1 s) and failing (500 / transport error): the slow/fast classification moved to the end and overrides the nack queue, so the message is acknowledged"),
+ "C19-D": ("services", "C19", "payload whose base64 contains '+' or '/' (e.g. '?', '~' or non-ASCII at the right alignment): the envelope uses the URL-safe alphabet"),
+ "C18-C": ("faults", "C18", "a fault injected with an EMPTY parameter value and a call that omits that key: presence is no longer checked, so the call matches and consumes the count"),
+ "C18-D": ("faults", "C18", "listing taken between the decrement that exhausts a fault and the asynchronous prune, or a fault added with count <= 0: Current() no longer filters Count > 0"),
+ "C17-C": ("services", "C17", "an UpdateSubscription whose mask names only CLEARING paths (filter \"\", retry_policy / push_config / dead_letter_policy absent): the no-op guard looks at set fields only, so the update is silently dropped"),
+ "C17-D": ("services", "C17,C04", "CreateSubscription with a retry_policy that has only maximum_backoff: SetMaxBackoff was nested under the minimum_backoff branch, so the policy is not stored (Get shows none, the cap is the default)"),
 }
 only = sys.argv[1:]
 for sid, (pkg, checks, needs) in SEEDS.items():
